@@ -80,6 +80,14 @@ class Body:
         if k == "goto":
             return [t["t"]]
         if k == "switch":
+            o = t["o"]
+            if o[0] == "k" and isinstance(o[1], dict) and o[1].get("v") is not None and "def" not in o[1]:
+                # literal condition (`if false && ..`): only the matching edge is live
+                lit = {"true": "1", "false": "0"}.get(str(o[1]["v"]), str(o[1]["v"]))
+                for v, b in t["ts"]:
+                    if str(v) == lit:
+                        return [b]
+                return [t["ow"]]
             out = [b for _, b in t["ts"]]
             out.append(t["ow"])
             return list(dict.fromkeys(out))
